@@ -191,11 +191,22 @@ class Packet(_with_metaclass(bisturi.packet_builder.MetaPacket, object)):
         if not isinstance(other, self.__class__):
             return False
 
-        for name, f, pack, _ in self.get_fields():
+        for name in self._get_names_of_fields_with_value():
             if getattr(self, name) != getattr(other, name):
                 return False
 
         return True
+
+    @classmethod
+    def _get_names_of_fields_with_value(cls):
+        # the fields that only move the cursor (at, shift, aligned, Em)
+        # don't hold a value in the packet
+        from bisturi.structural_fields import Move
+        from bisturi.field import Em
+        return [
+            name for name, f, _, _ in cls.get_fields()
+            if not isinstance(f, (Move, Em))
+        ]
 
     def iterative_unpack(self, raw, offset=0, stack=None):
         raise NotImplementedError()
@@ -207,7 +218,7 @@ class Packet(_with_metaclass(bisturi.packet_builder.MetaPacket, object)):
 
     def __repr__(self):
         msg = [f'{self.__class__.__name__}:']
-        for name, f, _, _ in self.get_fields():
+        for name in self._get_names_of_fields_with_value():
             msg.append(f'  {name}: {getattr(self, name)}')
 
         return '\n'.join(msg)
